@@ -22,6 +22,13 @@ func checkC10(p *Prog, r *Report) {
 	r.Floor("consensus-entry-points", len(entries), 14+28+12)
 	scope, _ := moduleScope(p, entries)
 	r.Count("functions-in-consensus-scope", len(scope))
+	// D2d restarting at an upgrade height: the stores are loaded through the upgrade descriptors, which must account for every
+	// mounted store
+	if wd := BuildWire(p); len(wd.Upgrades) > 0 {
+		checkStoreDescriptors(p, r, kp, wd)
+	}
+	// D1b … nor in process-wide registries or long-lived objects of other modules (lost on restart, never rolled back)
+	checkProcessWideState(p, r, kp, scope)
 	channels, writes := hiddenStateChannels(p, scope, scope)
 	var locs []string
 	for l := range channels {
